@@ -253,7 +253,9 @@ class G:
                         continue
                     e = f"op.Where({c}, {e}, {o})"
             elif k == "attr":
-                cand = [a for a in self.attr_names if (a[1] == "float" and dtn == "FLOAT") or (a[1] == "int" and dtn == "INT64")]
+                # a bool attribute is a polymorphic literal too: next to a FLOAT / INT64 tensor it is cast like the tensor
+                cand = [a for a in self.attr_names if (a[1] == "float" and dtn == "FLOAT") or (a[1] == "int" and dtn == "INT64") or
+                        (a[1] == "bool" and dtn in ("FLOAT", "INT64", "DOUBLE", "INT32"))]
                 if cand:
                     a = r.choice(cand)
                     e = f"({e} {r.choice(['+', '*'])} {a[0]})"
@@ -521,6 +523,8 @@ class G:
                 body += self.st_assign_like(e2, indent + 1, target=self.fresh("q"))
             except Bail:
                 pass
+        if r.random() < 0.3:
+            body += self._rebind_carried_to_outer(env, e2, carried, indent + 1)
         if depth < self.depth_limit and r.random() < 0.5:
             body += self.block(e2, indent + 1, depth + 1, 1, allow_loops=False)
             self.feat.add("nested_control_flow")
@@ -599,6 +603,19 @@ class G:
         self.feat.add("loop_if_kills_live_out")
         return out
 
+    def _rebind_carried_to_outer(self, env, e2, carried, indent):
+        """`v = w` inside a loop body where v is loop state and w was computed BEFORE the loop (and is not itself loop state):
+        the iteration ends with v bound to a value of the enclosing scope, which the body must hand out as a copy."""
+        r = self.rng
+        for v in carried:
+            outer = [n for n in self.tensors(env) if n not in carried and n != v and n in e2 and e2[n] is env[n]
+                     and env[n].a.dtype == e2[v].a.dtype and env[n].a.shape == e2[v].a.shape]
+            if outer:
+                w = r.choice(sorted(outer))
+                self.feat.add("loop_state_rebound_to_outer_value")
+                return self.emit(f"{v} = {w}", e2, indent)
+        return []
+
     def st_while(self, env, indent, depth):
         r = self.rng
         names = sorted(n for n in self.tensors(env) if n not in self.readonly)
@@ -629,6 +646,8 @@ class G:
                 late = (acc, sv, r.choice(["if", "if", "for"]))
         for w in carried:
             body += self.st_assign_like(e2, indent + 1, target=w)
+        if late is None and r.random() < 0.3:
+            body += self._rebind_carried_to_outer(env, e2, carried, indent + 1)
         if late is not None:
             acc, sv, how = late
             if how == "if":
@@ -741,11 +760,12 @@ def generate(rng, n_stmts=6):
     nattr = rng.choice([0, 0, 1, 2])
     defaults_flags = sorted([rng.random() < 0.5 for _ in range(nattr)])
     for k in range(nattr):
-        pyt = rng.choice(["float", "int", "int"])
+        pyt = rng.choice(["float", "int", "int", "bool"])
         name = f"a{k}"
-        default = rng.choice([0.5, 2.0, -1.0]) if pyt == "float" else rng.choice([0, 1, 2, 3])
+        default = rng.choice([0.5, 2.0, -1.0]) if pyt == "float" else (rng.choice([0, 1, 2, 3]) if pyt == "int" else rng.choice([True, False]))
         has_default = defaults_flags[k]
-        value = default if rng.random() < 0.5 else (rng.choice([1.5, -0.5]) if pyt == "float" else rng.choice([1, 2, 4]))
+        value = default if rng.random() < 0.5 else (rng.choice([1.5, -0.5]) if pyt == "float" else (rng.choice([1, 2, 4]) if pyt == "int" else
+                                                                                                   rng.choice([True, False])))
         p.attrs.append((name, pyt, default if has_default else None, value))
         g.env[name] = value
         g.attr_names.append((name, pyt, value))
